@@ -44,3 +44,30 @@ def stats(cases, outs):
 
 
 describe = S.describe
+
+
+def classify(case, outs):
+    """Known finding `coalesced-behind-ack-only`: window passed by < 1 datagram by a datagram that
+    starts with a long-header packet (ack-eliciting data coalesced behind handshake ACKs)."""
+    last = {}
+    pend = None
+    for r in outs:
+        if r[0] == 8:
+            k = (r[2], r[3])
+            if pend is not None and pend[0] == k:
+                b, tx = pend[1], pend[2]
+                added = r[4 + 5] > b[4 + 5]
+                over = not (r[4 + 4] < max(b[4 + 6], r[4 + 6]))
+                if added and over and (tx[9] & 1) and tx[6] == 0 and r[4 + 4] < max(b[4 + 6], r[4 + 6]) + b[4 + 7] \
+                        and b[4 + 16] == 0 and b[4 + 9] == 0:
+                    return "coalesced-behind-ack-only"
+            pend = None
+            last[k] = r
+        elif r[0] == 1 and r[8] == 0:
+            k = (r[2], r[3])
+            if k in last:
+                pend = (k, last[k], r)
+    return None
+
+
+KNOWN_PARAM = {"coalesced-behind-ack-only": [902, 1]}
